@@ -127,22 +127,22 @@ FUNCS = ['util.dykstra', 'util.pbox', 'util.pball']
 
 def harnesses(tier, seed):
     hs = []
-    grid = [(1, 2, 3), (2, 2, 3), (2, 3, 2)] if tier == 'quick' else [(1, 2, 3), (2, 2, 3), (2, 3, 3), (3, 3, 2), (3, 4, 2), (6, 4, 1), (4, 2, 3)]
+    grid = [(1, 2, 3), (2, 2, 3), (2, 3, 2)] if tier == 'quick' else [(1, 2, 3), (2, 2, 3), (2, 3, 3), (3, 3, 2), (3, 4, 1), (4, 2, 2), (6, 2, 1)]
     for (n, p, mi) in grid:
         hs.append(Harness("stoprule[n=%d,p=%d,max_iter<=%d]" % (n, p, mi), 'dfverif.checks.c15', 'body_stoprule',
                           params=dict(n=n, p=p, max_iter_hi=mi),
-                          cfg=core.Cfg(fork_queries=True, qtimeout_ms=30000 if tier == 'quick' else 120000),
+                          cfg=core.Cfg(fork_queries=True, qtimeout_ms=30000 if tier == 'quick' else 90000),
                           functions=FUNCS, bounds="dimension %d, %d sets, max_iter in [0,%d], tol >= 0 symbolic, projector outputs arbitrary" % (n, p, mi),
                           assumptions=["projector outputs are arbitrary vectors (a projector onto C_i returns a point of C_i: the distance to z_i bounds the distance to C_i)",
                                        "real arithmetic (rounding not modelled)"],
                           expect=['within-sqrt(p*tol)-of-set-0', 'at-most-max_iter-sweeps', 'projector-argument-is-point-minus-own-correction'], nproc=1))
     fps = [(1, ('box', 'ball')), (2, ('ball', 'box')), (2, ('half', 'box'))] if tier == 'quick' else \
-        [(1, ('box', 'ball')), (2, ('ball', 'box')), (2, ('half', 'box')), (2, ('ball', 'half', 'box')), (3, ('ball', 'box')),
-         (3, ('half', 'ball', 'box')), (2, ('ball', 'ball', 'half', 'box'))]
+        [(1, ('box', 'ball')), (2, ('ball', 'box')), (2, ('half', 'box')), (2, ('ball', 'half', 'box')), (3, ('half', 'box')),
+         (3, ('box', 'box')), (2, ('half', 'half', 'box'))]      # (n=3 with a ball, 4 sets with two balls: `unknown` after 30-40 min, measured)
     for (n, kinds) in fps:
         hs.append(Harness("fixedpoint[n=%d,%s]" % (n, '+'.join(kinds)), 'dfverif.checks.c15', 'body_fixedpoint',
                           params=dict(n=n, kinds=list(kinds)),
-                          cfg=core.Cfg(fork_queries=True, qtimeout_ms=30000 if tier == 'quick' else 120000),
+                          cfg=core.Cfg(fork_queries=True, qtimeout_ms=30000 if tier == 'quick' else 90000),
                           functions=FUNCS, bounds="dimension %d, sets %s, max_iter in [1,3], tol > 0" % (n, kinds),
                           assumptions=["real pbox/pball executed; half-space projector given as its closed formula", "real arithmetic"],
                           expect=['feasible-point-unchanged'], nproc=1))
